@@ -48,7 +48,7 @@ def run_for(prop, tier):
             tgt = os.path.join(KANI_DIR, "target")
         else:
             cwd = os.path.join(REPO, "vls-core")
-            cmd = ["cargo", "kani", "--no-default-features", "--features", "std"]
+            cmd = ["cargo", "kani", "--no-default-features", "--features", "std", "-Z", "stubbing"]
             tgt = os.path.join(KANI_DIR, "target-inline")
         for h in hs:
             cmd += ["--harness", h["name"]]
